@@ -95,6 +95,15 @@ pub fn footer_catalogue() -> Vec<String> {
         "{\"kid\":\"zVhMiPBP9fRf2snEcT7gFTioeA9COcNy9DfgL1W60haO\"}".into(),
         "{\"kid\":\"zVhMiPBP9fRf2snEcT7gFTioeA9COcNy9DfgL1W60haN\"} ".into(),
         "arbitrary-string-that-isn't-json".into(),
+        // footers with JSON structure: the library treats a footer as opaque text, whatever it looks like
+        "{\"kid\":\"k\",\"ctx\":{\"roles\":[\"admin\"]}}".into(),
+        "{\"kid\":\"x\",\"note\":\"see [[wiki]] {{x}} ]]}}\"}".into(),
+        format!("{{\"a\":{}1{}}}", "[".repeat(20), "]".repeat(20)),
+        format!("{}1{}", "{\"a\":".repeat(18), "}".repeat(18)),
+        format!("{{\"keys\":[{}]}}", (0..24).map(|i| format!("[{}]", i)).collect::<Vec<_>>().join(",")),
+        format!("{{{}}}", (0..600).map(|i| format!("\"k{}\":{}", i, i)).collect::<Vec<_>>().join(",")),
+        "{not json".into(),
+        "[1,2".into(),
         "a.b".into(),
         ".".into(),
         "..".into(),
